@@ -11,6 +11,7 @@ from .lie_common import lib_call
 
 PI = np.pi
 SHARDS = {"quick": 12, "thorough": 16}
+REQUIRED_REACH = ['initialize', 'predict', 'correct_mag', 'correct_accel']
 RULE = ("initialize: gravity/magnetic measurements synthesised by the oracle from random true attitudes (0..pi), declination +-0.5, "
         "inclination +-1.3, scaled/zeroed/aligned to visit every error code and the 10-degree gate from both sides; predict: MRP in/on "
         "the unit ball, bias <= 0.2, gyro up to 50 rad/s, dt 1-20 ms, random well-conditioned lower-triangular W; corrections: "
